@@ -203,6 +203,10 @@ def check_facts(pid, facts):
     expectation: breaks the obligation) / None (shape not recognised: left to the correspondence check, reported)."""
     out = []
     codec = facts.get("codec", {})
+    if pid in ("C01", "C02", "C03", "C04", "C05", "C06", "C07", "C08", "C09", "C10", "C11", "C12", "C15", "C17", "C18"):
+        # the two translators (shape recognisers / symbolic executor) must agree wherever both read a body completely
+        sd = facts.get("translator_disagreements") or []
+        out.append(("translators-agree", False if sd else True, "%s" % (sd[:5] or "all bodies both read completely are read alike")))
     if not codec:
         return [("facts-extracted", None, "no facts")]
 
